@@ -9,6 +9,7 @@ import (
 	"crypto/tls"
 	"crypto/x509"
 	"crypto/x509/pkix"
+	"encoding/json"
 	"encoding/pem"
 	"fmt"
 	"math/big"
@@ -221,8 +222,41 @@ type SPConf struct {
 	EncCertState string `json:"enc_cert_state,omitempty"`
 }
 
-// Build returns a fresh service provider for the configuration.
+// Live mode: while it is on, Build hands out ONE long-lived instance per configuration class
+// (everything except the clock, the audience URI and the certificate store, which are
+// reassigned on that instance for each call, as an operator or a request handler would).
+// It is used by the single-threaded "live instance" passes of the checks: a decision must
+// follow the inputs and configuration of the current call, not those of an earlier one.
+var live struct {
+	on bool
+	m  map[string]*saml2.SAMLServiceProvider
+}
+
+// LiveBegin switches live mode on (single-threaded use only); LiveEnd switches it off.
+func LiveBegin() { live.on, live.m = true, map[string]*saml2.SAMLServiceProvider{} }
+func LiveEnd()   { live.on, live.m = false, nil }
+
+// Build returns a fresh service provider for the configuration (or, in live mode, the
+// long-lived instance of its class, reconfigured).
 func (c SPConf) Build() *saml2.SAMLServiceProvider {
+	if live.on {
+		k := c
+		k.ClockNs, k.Audience, k.Store = 0, nil, nil
+		kb, _ := json.Marshal(k)
+		sp, ok := live.m[string(kb)]
+		if !ok {
+			sp = c.build()
+			live.m[string(kb)] = sp
+			return sp
+		}
+		f := c.build()
+		sp.Clock, sp.AudienceURI, sp.IDPCertificateStore = f.Clock, f.AudienceURI, f.IDPCertificateStore
+		return sp
+	}
+	return c.build()
+}
+
+func (c SPConf) build() *saml2.SAMLServiceProvider {
 	sp := SP()
 	sp.IDPCertificateStore = Store(c.Store...)
 	sp.Clock = Clock(T0.Add(time.Duration(c.ClockNs)))
